@@ -211,24 +211,31 @@ func (c *Ctx) nilElementsRefused(fn *ssa.Function, decode ssa.CallInstruction, t
 		// sequence with a predicate that answers `element is nil`, a hit answered with an error
 		for _, ci := range callsIn(fn) {
 			n := calleeName(ci.Common())
-			if n != "slices.IndexFunc" && n != "slices.ContainsFunc" {
+			if n != "slices.IndexFunc" && n != "slices.ContainsFunc" && n != "slices.Index" && n != "slices.Contains" {
 				continue
 			}
 			call, ok := ci.(*ssa.Call)
 			if !ok || len(call.Call.Args) != 2 || !fromTarget(call.Call.Args[0]) {
 				continue
 			}
-			pred := funcOfValue(call.Call.Args[1])
-			if pred == nil || len(pred.Params) != 1 || len(pred.Blocks) != 1 {
-				continue
-			}
-			rets := returnsOf(pred)
-			if len(rets) != 1 {
-				continue
-			}
-			cmp, ok := rets[0].Results[0].(*ssa.BinOp)
-			if !ok || cmp.Op != token.EQL || !((cmp.X == ssa.Value(pred.Params[0]) && isNilConst(cmp.Y)) || (cmp.Y == ssa.Value(pred.Params[0]) && isNilConst(cmp.X))) {
-				continue
+			if n == "slices.Index" || n == "slices.Contains" {
+				// slices.Index(list, nil): the element looked for is nil itself
+				if !isNilConst(stripConv(call.Call.Args[1])) {
+					continue
+				}
+			} else {
+				pred := funcOfValue(call.Call.Args[1])
+				if pred == nil || len(pred.Params) != 1 || len(pred.Blocks) != 1 {
+					continue
+				}
+				rets := returnsOf(pred)
+				if len(rets) != 1 {
+					continue
+				}
+				cmp, ok := rets[0].Results[0].(*ssa.BinOp)
+				if !ok || cmp.Op != token.EQL || !((cmp.X == ssa.Value(pred.Params[0]) && isNilConst(cmp.Y)) || (cmp.Y == ssa.Value(pred.Params[0]) && isNilConst(cmp.X))) {
+					continue
+				}
 			}
 			// the branch on the answer: found -> a return with an error
 			for _, ref := range *call.Referrers() {
